@@ -41,10 +41,10 @@ type node struct {
 	children map[string]*node
 }
 
-func newDir() *node                   { return &node{kind: kDir, children: map[string]*node{}} }
-func newFile(d string, x bool) *node  { return &node{kind: kFile, data: d, exec: x} }
-func newSymlink(target string) *node  { return &node{kind: kSymlink, data: target} }
-func newFifo() *node                  { return &node{kind: kFifo} }
+func newDir() *node                  { return &node{kind: kDir, children: map[string]*node{}} }
+func newFile(d string, x bool) *node { return &node{kind: kFile, data: d, exec: x} }
+func newSymlink(target string) *node { return &node{kind: kSymlink, data: target} }
+func newFifo() *node                 { return &node{kind: kFifo} }
 func (n *node) names() []string {
 	l := make([]string, 0, len(n.children))
 	for k := range n.children {
